@@ -14,11 +14,11 @@
          "tooldesc" | "promptdesc" | "resdesc"   a registered descriptor, read back through the list methods
    Item kinds: text image audio embtext embblob (embedded text / blob resource).
    String classes: empty ascii newline (LF, CR, CRLF inside) u2028 (U+2028/9, U+0085) quote (quotes, backslashes,
-   "</script>", data: prefixes) control (U+0001..001F, DEL) astral (emoji, combining marks, RTL) big (2 MiB).     *)
+   "</script>", data: prefixes) percent (printf verbs, URL escapes, "100%") control (U+0001..001F, DEL) astral (emoji, combining marks, RTL) big (2 MiB).     *)
 EXTENDS Naturals, TLC
 
 Kinds == {"text", "image", "audio", "embtext", "embblob"}
-SC == {"empty", "ascii", "newline", "u2028", "quote", "control", "astral", "big"}
+SC == {"empty", "ascii", "newline", "u2028", "quote", "percent", "control", "astral", "big"}
 PairSC == {"ascii", "empty", "newline"}
 Structs == {"absent", "flat", "nested", "array", "number", "string"}
 
